@@ -169,14 +169,28 @@ def check(prog, run):
                               file, line, key)
             else:
                 run.ok("other-bits-zero", short, {"case": con.label()})
+    nhist = check_history(prog, run, classes, QUICK_PREDECESSORS)
+    run.count("history_constructions", nhist)
+    run.count("classes", nclass)
+    run.count("constructions", ncons)
+    run.count("field_comparisons", nfields)
+    run.count("modules", len(prog.modules))
+    run.floor("command classes", nclass, 42)
+    run.floor("constructions (class x set x domain x path)", ncons, 110)
+
+
+QUICK_PREDECESSORS = [("pyscsi.pyscsi.scsi_cdb_testunitready:TestUnitReady", "TEST_UNIT_READY"),
+                      ("pyscsi.pyscsi.scsi_cdb_readcapacity10:ReadCapacity10", "READ_CAPACITY_10"),
+                      ("pyscsi.pyscsi.scsi_cdb_report_luns:ReportLuns", "REPORT_LUNS"), ("pyscsi.pyscsi.scsi_cdb_read16:Read16", "READ_16")]
+
+
+def check_history(prog, run, classes, preds):
     # every CDB the library builds, whatever was built just before it: each class again, right after a predecessor command
     # from each CDB length group (6 / 10 / 12 / 16 bytes); the predecessors' tables include one that is equal *by value*
     # to three other classes' tables ({"opcode": [0xFF, 0]})
     from ..images import same_value
     I = prog.I
     mod = prog.module(ENUM_MOD)
-    preds = [("pyscsi.pyscsi.scsi_cdb_testunitready:TestUnitReady", "TEST_UNIT_READY"), ("pyscsi.pyscsi.scsi_cdb_readcapacity10:ReadCapacity10", "READ_CAPACITY_10"),
-             ("pyscsi.pyscsi.scsi_cdb_report_luns:ReportLuns", "REPORT_LUNS"), ("pyscsi.pyscsi.scsi_cdb_read16:Read16", "READ_16")]
     nhist = 0
     for key, entry in refcdb.CDB.items():
         cls = classes[key]
@@ -193,7 +207,7 @@ def check(prog, run):
             nhist += 1
 
             def th(con=con, entry=entry, pcls=pcls, pentry=pentry, popname=popname):
-                pop = mod.env["sbc"].members[popname]
+                pop = popname if not isinstance(popname, str) else mod.env["sbc"].members[popname]
                 pkw = {n: domain_choices(n, d)[0][1]() for n, d in pentry["args"]}
                 I.instantiate(pcls, [pop], pkw, None, _F("predecessor"))
                 kw = {}
@@ -219,13 +233,19 @@ def check(prog, run):
                                      len(want.cells) if isinstance(want, Buf) and want.cells is not None else "?"),
                                   prog.rel(cls.module), None, key)
                 break
-    run.count("history_constructions", nhist)
-    run.count("classes", nclass)
-    run.count("constructions", ncons)
-    run.count("field_comparisons", nfields)
-    run.count("modules", len(prog.modules))
-    run.floor("command classes", nclass, 42)
-    run.floor("constructions (class x set x domain x path)", ncons, 110)
+    return nhist
+
+
+def thorough(prog, run):
+    """every command class built right after every other command class (42 x 41 ordered pairs)"""
+    classes = {c.qualname: c for c in prog.command_classes()}
+    preds = []
+    for pkey, pentry in refcdb.CDB.items():
+        ops = opcode_entries(prog, pentry["names"])
+        if ops:
+            preds.append((pkey, ops[0][2]))
+    n = check_history(prog, run, classes, preds)
+    run.count("history_constructions_all_pairs", n)
 
 
 def bit_repr(x):
